@@ -79,15 +79,17 @@ func LoadFindings(verifDir string) ([]*Finding, error) {
 	return out, sc.Err()
 }
 
-func (fd *Finding) matches(f Failure) bool {
-	if fd.Status != "known" || fd.Property != f.Prop {
+// matchesComp: comp carries one component of the kind (for the regexp), whole is the complete failure (for the
+// case-list key).
+func (fd *Finding) matchesComp(comp, whole Failure) bool {
+	if fd.Status != "known" || fd.Property != comp.Prop {
 		return false
 	}
-	if fd.re != nil && !fd.re.MatchString(f.Case+"\t"+f.Kind) {
+	if fd.re != nil && !fd.re.MatchString(comp.Case+"\t"+comp.Kind) {
 		return false
 	}
 	if fd.cases != nil {
-		if _, ok := fd.cases[f.Key()]; !ok {
+		if _, ok := fd.cases[whole.Key()]; !ok {
 			return false
 		}
 	}
@@ -202,15 +204,30 @@ func Aggregate(o AggOpts) int {
 	}
 	var unlisted []Failure
 	for _, f := range tot.Failures {
-		known := false
-		for _, fd := range findings {
-			if fd.matches(f) {
-				fd.hits++
-				known = true
+		// a failure may combine several kinds ("a+b"): it is known only if every component is listed
+		known := true
+		var hit []*Finding
+		for _, comp := range strings.Split(f.Kind, "+") {
+			fc := f
+			fc.Kind = comp
+			ok := false
+			for _, fd := range findings {
+				if fd.matchesComp(fc, f) {
+					hit = append(hit, fd)
+					ok = true
+					break
+				}
+			}
+			if !ok {
+				known = false
 				break
 			}
 		}
-		if !known {
+		if known {
+			for _, fd := range hit {
+				fd.hits++
+			}
+		} else {
 			unlisted = append(unlisted, f)
 		}
 	}
